@@ -232,35 +232,10 @@ func TestVerifC20RegressCapPerPoolSubset(t *testing.T) {
 	}
 }
 
-// c20SigCapNonEmptyForeign: when counting the host's affine blocks for the cap,
-// prepareAffinityBlocksForHost subtracts every block of a pool that no longer selects the node for
-// which it *attempted* a release - also when the release was refused because the block is not
-// empty (errBlockNotEmpty falls through to numReleased++).  The host still holds that block.
-const c20SigCapNonEmptyForeign = "c20-block-cap-discounts-unreleased-nonempty-blocks"
-
-// c20HoldsForeignNonEmpty: host h has a non-empty affine block in a pool whose node selector does
-// not select it (the only situation the known finding covers).
-func c20HoldsForeignNonEmpty(cw *c20World, snap *c19Snapshot, h string) bool {
-	for _, a := range snap.Affs {
-		if a.Host != h {
-			continue
-		}
-		b := snap.Blocks[a.CIDR]
-		if b == nil || len(b.Allocs) == 0 {
-			continue
-		}
-		for _, p := range cw.pools {
-			if netip.MustParsePrefix(p.CIDR).Contains(netip.MustParsePrefix(a.CIDR).Addr()) && !c20SelMatches(p.NodeSel, cw.nodeLabels[h]) {
-				return true
-			}
-		}
-	}
-	return false
-}
-
-// TestVerifC20ConfirmCapNonEmptyForeign is the deterministic reproducer of c20SigCapNonEmptyForeign.
-// It FAILS while the defect is present.
-func TestVerifC20ConfirmCapNonEmptyForeign(t *testing.T) {
+// TestVerifC20RegressCapNonEmptyForeign: regression test for an intermediate version of the cap fix
+// that discounted blocks of pools not selecting the node whose release had been refused because
+// they were not empty (never in the original tree).
+func TestVerifC20RegressCapNonEmptyForeign(t *testing.T) {
 	ev.Quiet()
 	b := c19Pool("b", "10.0.2.0/28", 29)
 	b.Spec.NodeSelector = "rack == 'a'"
@@ -388,7 +363,6 @@ func c20Case(t *rapid.T, rec *ev.Recorder) {
 	nontrivial := false
 	nOps := rapid.IntRange(6, ev.Scale(16, 28)).Draw(t, "nOps")
 	var log []string
-	knownHit := false
 	fail := func(format string, args ...any) {
 		t.Fatalf("C20 VIOLATION: %s\npools: %+v\nreservations: %v\nnode labels: %v\nconfig: %+v\nhistory:\n  %s\ndatastore:\n%s",
 			fmt.Sprintf(format, args...), cw.pools, cw.rsvd, cw.nodeLabels, cw.cfg, strings.Join(log, "\n  "), cw.w.snapshot())
@@ -401,10 +375,6 @@ func c20Case(t *rapid.T, rec *ev.Recorder) {
 		for _, h := range []string{"n1", "n2", v3.VirtualLoadBalancer} {
 			n := c20BlockCount(snap, h)
 			if n <= cw.cfg.MaxBlocksPerHost {
-				continue
-			}
-			if ev.Known(c20SigCapNonEmptyForeign) && c20HoldsForeignNonEmpty(cw, snap, h) {
-				knownHit = true
 				continue
 			}
 			fail("%s: host %s holds %d affine IPv4 blocks, configured MaxBlocksPerHost is %d", when, h, n, cw.cfg.MaxBlocksPerHost)
@@ -614,9 +584,7 @@ func c20Case(t *rapid.T, rec *ev.Recorder) {
 		ws = append(ws, fmt.Sprintf("%s/%d%s%s%v%v", p.CIDR[5:], p.BlockSize, p.NodeSel, p.NsSel, p.Disabled, len(p.Uses)))
 	}
 	key := strings.Join(ws, ";") + fmt.Sprint(cw.rsvd) + strings.Join(shape, "")
-	if knownHit {
-		rec.Excluded(c20SigCapNonEmptyForeign)
-	}
+
 
 	rec.SizedCase(nontrivial, key, len(log), func() any {
 		return map[string]any{"pools": cw.pools, "reservations": fmt.Sprint(cw.rsvd), "nodeLabels": cw.nodeLabels, "config": cw.cfg, "history": log}
